@@ -425,7 +425,7 @@ class Polynomial(Vector):
 
         # Shift coefficients till the leading coefficient is nonzero
         shifts = (coefficients[...,0] == 0.)
-        total_shifts = np.zeros(shifts._shape_, dtype='int')
+        total_shifts = np.zeros(shifts.shape, dtype='int')
         while np.any(shifts):
             coefficients[shifts,:-1] = coefficients[shifts,1:]
             coefficients[shifts,-1] = 0.
@@ -444,26 +444,23 @@ class Polynomial(Vector):
         root_values = np.real(roots)
         root_mask = poly_mask[np.newaxis,...] | is_complex
 
-        # Mask extraneous zeros
-        # Handily, they always show up first in the array of roots
-        max_shifts = total_shifts.max()
-        for k in range(max_shifts):
-            root_mask[total_shifts > k, k] = True
+        # Mask extraneous zeros: each shift appended one zero root, so mask that
+        # many of the roots of smallest magnitude
+        rank_by_size = np.argsort(np.argsort(np.abs(roots), axis=0), axis=0)
+        root_mask = root_mask | (rank_by_size < total_shifts[np.newaxis,...])
 
         roots = Scalar(root_values, Qube.as_one_bool(root_mask))
         roots = roots.sort(axis=0)
 
-        # Mask duplicated values
-        mask_changed = False
-        for k in range(1,self.order):
-            mask = ((roots._values_[k,...] == roots._values_[k-1,...]) &
-                     ~roots._mask_[k,...])
-            if np.any(mask):
-                root_mask[k,...] |= mask
-                mask_changed = True
+        # Mask duplicated values, which are adjacent after the sort
+        sorted_values = roots._values_
+        sorted_mask = np.broadcast_to(roots._mask_, roots._shape_)
+        duplicated = np.zeros(roots._shape_, dtype='bool')
+        duplicated[1:] = ((sorted_values[1:] == sorted_values[:-1]) &
+                          ~sorted_mask[1:])
 
-        if mask_changed:
-            roots = Scalar(root_values, Qube.as_one_bool(root_mask))
+        if np.any(duplicated):
+            roots = Scalar(sorted_values, sorted_mask | duplicated)
             roots = roots.sort(axis=0)
 
         # Deal with derivatives if necessary
@@ -477,7 +474,8 @@ class Polynomial(Vector):
         if recursive:
             for (key, value) in self._derivs_.items():
                 deriv = (-value.eval(roots, recursive=False) /
-                         self.deriv.eval(roots, recursive=False))
+                         self.deriv(recursive=False).eval(roots,
+                                                          recursive=False))
                 roots.insert_deriv(key, deriv)
 
         return roots
